@@ -1,6 +1,8 @@
 package sim
 
 import (
+	appparams "github.com/certikfoundation/shentu/app/params"
+	"github.com/certikfoundation/shentu/app"
 	"github.com/hyperledger/burrow/crypto"
 	"encoding/binary"
 	"math/rand"
@@ -66,6 +68,16 @@ func BankVMProfile(seed int64, out *Recorder, nOps int) *Chain {
 	rng := newRng(seed)
 	cfg := GenCfg{Seed: seed, H0: 5, T0: time.Unix(1600000000, 0).UTC(), NAcc: 8, NVal: 2, NCert: 1, AdminIdx: 7,
 		ExtraDenom: []string{"aaa", "zzz"}, Balance: 1000000000000, ValStake: []int64{1000000000, 2000000000}}
+	if seed%3 == 0 {
+		// a short unbonding time: coins that a vesting account delegated and undelegated come back within the history
+		// (whatever was locked before the round trip must still be locked after it)
+		cfg.Patch = func(enc appparams.EncodingConfig, gs app.GenesisState) {
+			var stg stakingtypes.GenesisState
+			enc.Marshaler.MustUnmarshalJSON(gs[stakingtypes.ModuleName], &stg)
+			stg.Params.UnbondingTime = 12 * time.Second
+			gs[stakingtypes.ModuleName] = enc.Marshaler.MustMarshalJSON(&stg)
+		}
+	}
 	c := NewChain(cfg, out)
 	c.Rng = rng
 	// fresh keys that will become manual vesting accounts
